@@ -337,6 +337,40 @@ def h_complex_args(E, idx):
     return repr(v)
 
 
+def h_carrier(E, fname):
+    """the value of a function does not depend on the numeric type that carries its argument: python int, numpy integer, numpy float, a whole number
+    produced inside the expression (kronecker sums) all give what the float of the same value gives - or the same student-facing error"""
+    from mitxgraders.helpers.calc.expressions import evaluator, DEFAULT_FUNCTIONS, DEFAULT_SUFFIXES
+    from mitxgraders.exceptions import StudentFacingError
+    n = E.choice('n', [2, 1, -2, 0, 3])
+
+    def outcome(expr, env):
+        try:
+            v, _ = evaluator(expr, env, DEFAULT_FUNCTIONS, DEFAULT_SUFFIXES)
+            return ('value', complex(v))
+        except StudentFacingError as e:
+            return ('error', type(e).__name__)
+    ref = outcome('%s(t)' % fname, {'t': float(n)})
+    inside = '+'.join(['kronecker(1,1)'] * abs(n)) if n else 'kronecker(1,2)'
+    cases = {'python-int': ('%s(t)' % fname, {'t': int(n)}), 'np.int64': ('%s(t)' % fname, {'t': np.int64(n)}), 'np.int32': ('%s(t)' % fname, {'t': np.int32(n)}),
+             'np.float64': ('%s(t)' % fname, {'t': np.float64(n)}), 'literal': ('%s(%s)' % (fname, ('0-%d' % -n) if n < 0 else str(n)), {}),
+             'kronecker-sum': ('%s(%s%s)' % (fname, '0-(' if n < 0 else '(', inside + ')'), {}), 'direct-call': None}
+    for kind, c in cases.items():
+        if c is None:
+            try:
+                got = ('value', complex(DEFAULT_FUNCTIONS[fname](n)))
+            except StudentFacingError as e:
+                got = ('error', type(e).__name__)
+            except (ZeroDivisionError, FloatingPointError, ValueError, OverflowError):
+                got = ('error', 'raw')           # outside the evaluator the raw numpy/python error is the documented behaviour
+            same = (got[0] == ref[0] == 'error') or (got[0] == ref[0] == 'value' and abs(got[1] - ref[1]) <= 1e-12 * (1 + abs(ref[1])))
+        else:
+            got = outcome(*c)
+            same = got == ref if got[0] == 'error' or ref[0] == 'error' else abs(got[1] - ref[1]) <= 1e-12 * (1 + abs(ref[1]))
+        E.check('value-independent-of-the-numeric-carrier-type', same)
+    return ref[0]
+
+
 SHAPES = [(), (2,), (3,), (2, 2), (2, 3), (3, 3), (2, 2, 2), (3, 3, 3), (2, 2, 2, 2)]
 
 
@@ -398,6 +432,10 @@ def harnesses(tier):
     for name in sorted(MatrixGrader.default_functions):
         if name != 'factorial' and name != 'fact':
             add(h_shapes, 'shapes', dict(f=name), 'argument shapes (), 2, 3, 2x2, 2x3, 3x3, 2x2x2, 3x3x3, 2x2x2x2', validate=False)
+    from mitxgraders.helpers.calc.mathfuncs import ELEMENTWISE_FUNCTIONS
+    for name in sorted(ELEMENTWISE_FUNCTIONS):
+        if name not in ('factorial', 'fact'):
+            add(h_carrier, 'carrier', dict(f=name), 'argument 2, 1, -2, 0, 3 carried as int / numpy int / numpy float / literal / kronecker sum / direct call', validate=False)
     for i in range(len(REAL_ONLY)):
         add(h_complex_args, 'complex_args', dict(i=i), REAL_ONLY[i] + ' with 6 complex values', validate=False)
     add(h_constants, 'constants', {}, 'tables')
